@@ -4,6 +4,7 @@ import (
 	"bytes"
 	"context"
 	"fmt"
+	"io"
 	"regexp"
 	"runtime/debug"
 
@@ -119,8 +120,21 @@ func (s Step) Visible() string {
 }
 
 type Mode struct {
-	Kind    string `json:"kind"`              // long | persist | long+persist
+	Kind    string `json:"kind"`              // long | persist | long+persist | objects (an engine per request over state and cache objects the application keeps)
 	Backend string `json:"backend,omitempty"` // mem fs fsbin pg (persist kinds)
+	// Reuse "flush" (persist kind): one persist.Persister created WithFlush serves every
+	// request - and every session - of the process, instead of a new one per request
+	Reuse string `json:"reuse,omitempty"`
+}
+
+// PerRequest: every request is served by an engine of its own.
+func (m Mode) PerRequest() bool {
+	return m.Kind == "persist" || m.Kind == "objects"
+}
+
+// PeBox holds the persister that sessions in Reuse mode share.
+type PeBox struct {
+	Pe *persist.Persister
 }
 
 // FirstCall is one call of the engine's first function.
@@ -154,6 +168,8 @@ type Session struct {
 	// caller that retries on the object it has), while a fresh engine serves the one in
 	// between
 	HoldRefused bool
+	// PeBox (Mode.Reuse): the shared persister; set it to share one with another Session
+	PeBox       *PeBox
 	held        *engine.DefaultEngine
 	heldPe      *persist.Persister
 	heldWait    int
@@ -172,6 +188,9 @@ func EngineConfig(c Config) engine.Config {
 // newEngine builds an engine the way the application is configured.
 func (s *Session) newEngine() *engine.DefaultEngine {
 	e := engine.NewEngine(s.Cfg, s.Shared.Resource(s.Rec))
+	if s.Shared.App.Cfg.Debugger {
+		e = e.WithDebug(engine.NewSimpleDebug(io.Discard))
+	}
 	if f := s.Shared.App.Cfg.First; f != nil {
 		e = e.WithFirst(func(ctx context.Context, sym string, input []byte) (resource.Result, error) {
 			n := len(s.FirstSeen)
@@ -248,6 +267,15 @@ func (s *Session) Request(input []byte) (step Step) {
 			s.en = e
 		}
 		en = s.en
+	case "objects":
+		if s.St == nil {
+			s.St = state.NewState(s.Cfg.FlagCount)
+			s.Ca = cache.NewCache()
+			if s.Cfg.CacheSize > 0 {
+				s.Ca = s.Ca.WithCacheSize(s.Cfg.CacheSize)
+			}
+		}
+		en = s.newEngine().WithState(s.St).WithMemory(s.Ca)
 	case "persist":
 		store, err := s.Storage.Open(ctx)
 		if err != nil {
@@ -262,7 +290,17 @@ func (s *Session) Request(input []byte) (step Step) {
 		if s.held != nil && s.heldWait > 0 && acceptable(input) {
 			s.heldWait--
 		}
-		pe = persist.NewPersister(store)
+		if s.Mode.Reuse == "flush" {
+			if s.PeBox == nil {
+				s.PeBox = &PeBox{}
+			}
+			if s.PeBox.Pe == nil {
+				s.PeBox.Pe = persist.NewPersister(store).WithFlush()
+			}
+			pe = s.PeBox.Pe
+		} else {
+			pe = persist.NewPersister(store)
+		}
 		en = s.newEngine().WithPersister(pe)
 	default:
 		panic("unknown mode " + s.Mode.Kind)
@@ -297,6 +335,13 @@ func (s *Session) Request(input []byte) (step Step) {
 }
 
 func (s *Session) finish(ctx context.Context, en *engine.DefaultEngine, pe *persist.Persister, step *Step) Step {
+	if s.Mode.Kind == "objects" && step.Panic == "" {
+		var ferr error
+		protect("finish", step, func() { ferr = en.Finish(ctx) })
+		if ferr != nil {
+			step.FinishErr = ferr.Error()
+		}
+	}
 	if s.Mode.Kind == "persist" {
 		if step.Panic == "" {
 			var ferr error
@@ -309,7 +354,8 @@ func (s *Session) finish(ctx context.Context, en *engine.DefaultEngine, pe *pers
 			protect("snapshot", step, func() {
 				st := pe.GetState()
 				ca, _ := pe.GetMemory().(*cache.Cache)
-				if st == nil || ca == nil {
+				if st == nil || ca == nil || s.Mode.Reuse == "flush" {
+					// (a flushing persister holds nothing after the save)
 					// the engine never took the session up (the request was refused before
 					// anything was set up): the session is what the store holds
 					if store, err := s.Storage.Open(ctx); err == nil {
